@@ -1,15 +1,5 @@
-import MqttVerif.Props.C04
-import MqttVerif.Props.C02
-import MqttVerif.Props.C05
-import MqttVerif.Props.C06
-import MqttVerif.Props.C07
-import MqttVerif.Props.C08
-import MqttVerif.Props.C09
-import MqttVerif.Props.C10
-import MqttVerif.Props.C12
-import MqttVerif.Props.C13
-import MqttVerif.Props.C14
-import MqttVerif.Props.C15
-import MqttVerif.Props.C18
-import MqttVerif.Props.C19
-import MqttVerif.Props.C20
+-- Root of the library.  The property theorem files (`MqttVerif/Props/Cxx.lean`) are built one
+-- by one (`./check setup`, `./check <Cxx>`): their helper-lemma files were developed
+-- independently and reuse some lemma names, so they are deliberately not imported together.
+import MqttVerif.Conn.Step
+import MqttVerif.Monitors
